@@ -112,22 +112,42 @@ fn parse_samples(v: &Value) -> Option<Vec<Vec<bool>>> {
     v.as_array().map(|a| a.iter().map(|m| m.as_array().map(|b| b.iter().map(|x| x.as_bool().unwrap_or(false)).collect()).unwrap_or_default()).collect())
 }
 
+
+/// parameters of a case: struct literal, or — for every other case, decided by the case itself so that
+/// replays agree — the public builder methods starting from `default()` (`with_*` must store exactly what
+/// it is given; an `Option` field left at its default must be `None` for the builder to be usable)
+fn via_builder(c: &Case) -> bool {
+    (c.x.len() + c.mss + c.msl + c.n_trees as usize + (c.seed % 7) as usize) % 2 == 0
+}
+fn clf_params(c: &Case) -> RandomForestClassifierParameters {
+    let literal = RandomForestClassifierParameters { criterion: criterion(c.crit), max_depth: c.md, min_samples_leaf: c.msl, min_samples_split: c.mss, n_trees: c.n_trees as u16, m: c.m, keep_samples: c.keep, seed: c.seed };
+    let d = RandomForestClassifierParameters::default();
+    if !via_builder(c) || (c.md.is_none() && d.max_depth.is_some()) || (c.m.is_none() && d.m.is_some()) {
+        return literal;
+    }
+    let mut p = d.with_criterion(criterion(c.crit)).with_min_samples_leaf(c.msl).with_min_samples_split(c.mss).with_n_trees(c.n_trees as u16).with_keep_samples(c.keep).with_seed(c.seed);
+    if let Some(md) = c.md { p = p.with_max_depth(md); }
+    if let Some(m) = c.m { p = p.with_m(m); }
+    p
+}
+fn reg_params(c: &Case) -> RandomForestRegressorParameters {
+    let literal = RandomForestRegressorParameters { max_depth: c.md, min_samples_leaf: c.msl, min_samples_split: c.mss, n_trees: c.n_trees, m: c.m, keep_samples: c.keep, seed: c.seed };
+    let d = RandomForestRegressorParameters::default();
+    if !via_builder(c) || (c.md.is_none() && d.max_depth.is_some()) || (c.m.is_none() && d.m.is_some()) {
+        return literal;
+    }
+    let mut p = d.with_min_samples_leaf(c.msl).with_min_samples_split(c.mss).with_n_trees(c.n_trees).with_keep_samples(c.keep).with_seed(c.seed);
+    if let Some(md) = c.md { p = p.with_max_depth(md); }
+    if let Some(m) = c.m { p = p.with_m(m); }
+    p
+}
 /// Err = panic, Ok(None) = fit returned Err.
 fn run_impl(c: &Case, extra: &[Vec<f64>], members: bool) -> Result<Option<Fitted>, String> {
     guard(|| {
         let xm = dense(&c.x);
         let em = if extra.is_empty() { None } else { Some(dense(extra)) };
         if c.cls {
-            let params = RandomForestClassifierParameters {
-                criterion: criterion(c.crit),
-                max_depth: c.md,
-                min_samples_leaf: c.msl,
-                min_samples_split: c.mss,
-                n_trees: c.n_trees as u16,
-                m: c.m,
-                keep_samples: c.keep,
-                seed: c.seed,
-            };
+            let params = clf_params(c);
             match RandomForestClassifier::fit(&xm, &c.y, params) {
                 Err(_) => None,
                 Ok(f) => {
@@ -164,15 +184,7 @@ fn run_impl(c: &Case, extra: &[Vec<f64>], members: bool) -> Result<Option<Fitted
                 }
             }
         } else {
-            let params = RandomForestRegressorParameters {
-                max_depth: c.md,
-                min_samples_leaf: c.msl,
-                min_samples_split: c.mss,
-                n_trees: c.n_trees,
-                m: c.m,
-                keep_samples: c.keep,
-                seed: c.seed,
-            };
+            let params = reg_params(c);
             match RandomForestRegressor::fit(&xm, &c.y, params) {
                 Err(_) => None,
                 Ok(f) => {
